@@ -70,6 +70,11 @@ func C19(e *Env) {
 	r.Rule("R09.1", "the self-configuration is split over seven files (meta only in the first): what the tool compiles from them is decided by Merge/mergeMeta/mergeService, field by field with the documented combinator (shared with C09); R19.1 merges the YAML with the checker's own documented merge, so a deviating module merge makes the regenerated file differ", 22)
 	r.Rule("R09.1c", "behaviour classes of the merge combinators (shared with C09)", 4)
 	r.Rule("R09.2", "the fold is *i = input.Merge(*i, decoded) (shared with C09)", 1)
+	sharedWriteRules(e)
+	r.Rule("R10.2", "regenerating in place (as `make self-compile` does) replaces the file: one os.WriteFile (create, truncate, write) (shared with C10)", 3)
+	r.Rule("R10.1", "the written path is the -o path (shared with C10)", 1)
+	c19StepOrder(e)
+	r.Rule("R19.3", "import aliases are numbered by first request, so the generated file depends on the order in which the compile steps run: compiler.New receives validate, meta, params, services, decorators in that order — the order the checked-in file was generated with", 1)
 	r.Rule("R08.1", "no order-sensitive range over a map in module code (engine M, shared with C08): otherwise import aliases are numbered in map order and a regenerated file differs from run to run", 1)
 	for _, m := range MapRanges(e.P) {
 		if m.Sensitive {
@@ -509,3 +514,28 @@ func cmpTok(e *Env, gm *wiring.GoModel, ym *wiring.YModel, builtins map[string]s
 }
 
 var _ = token.NoPos
+
+// c19StepOrder: R19.3.
+func c19StepOrder(e *Env) {
+	r := e.R
+	gm, _, ok := e.models()
+	if !ok {
+		return
+	}
+	c := gm.Service("compiler")
+	key := selfRel + "#service:compiler#step-order"
+	if c == nil {
+		r.Undecide("R19.3", key, "compiler service not found")
+		return
+	}
+	want := []string{"stepValidateInput", "stepCompileMeta", "stepCompileParams", "stepCompileServices", "stepCompileDecorators"}
+	okO := len(c.Args) == len(want)
+	var got []string
+	for i, a := range c.Args {
+		got = append(got, a.Name)
+		if i < len(want) && !depIs(a, "service", want[i]) {
+			okO = false
+		}
+	}
+	r.Check(okO, "R19.3", key, fmt.Sprintf("compiler.New(%v) — steps in the order validate, meta, params, services, decorators", got), e.P.Pos(c.Pos))
+}
